@@ -1,0 +1,9 @@
+//go:build verif
+
+package snapshots
+
+// Accessors for the verification harness (build tag verif only).
+
+// VerifSetErrChanC14 sets the channel that asynchronous publication errors (job snapshot write, savepoint
+// artifact creation) are sent to. NewStore does not take it from NewStoreParams.ErrChan.
+func (s *Store) VerifSetErrChanC14(ch chan error) { s.errChan = ch }
